@@ -755,6 +755,54 @@ int main(int argc, char **argv)
 					mcenv::cur = nullptr;
 				}
 	}
+	// ---- canonical generator with re-derivation (regime "canonretry", added after seeded change C06-5): the verifiable generator
+	// is H(seed)^k, and when that candidate is trivial the seed is extended by the candidate and hashed again.  The second round
+	// is reached with probability ~ 1/q, i.e. never in the other regimes: here |q| = 5 (4 in thorough as well), 200 (600)
+	// library-generated groups per size; each must pass CheckGroup() on the generating object and on an object built from the
+	// published group, and the generator is re-derived by the independent Python reference (which also counts the rounds).
+	if (regsel == "all" || regsel == "canonretry")
+	{
+		const unsigned long GS[] = { 5, 4 };
+		for (int gi = 0; gi < (thorough ? 2 : 1); gi++)
+			for (int set = 0; set < (thorough ? 600 : 200); set++)
+			{
+				std::string cid = std::string("grp:vtmf_dlog_canonical:canonretry") + str(GS[gi]) + ":" + str(set);
+				if (!R->mine() || !R->selected(cid)) continue;
+				if (R->out_of_time()) goto done;
+				mcenv::CoinSource cs(mcenv::env_seed(), 0);
+				mcenv::cur = &cs;
+				BarnettSmartVTMF_dlog *v = NULL;
+				const unsigned long F = 16, G = GS[gi];
+				for (uint64_t attempt = 0; attempt < 200 && !v; attempt++)
+				{
+					cs.reset(mcenv::env_seed(), 0x7a0000 + gi * 65536 + set + (attempt << 24));
+					cs.steer = budget_steer;
+					gen_budget = 4000;
+					try { v = new BarnettSmartVTMF_dlog(F, G, true, true); }
+					catch (GenStuck &) { R->counters["generator_restarts"]++; }
+					gen_budget = 0;
+				}
+				cs.steer = nullptr;
+				if (!v) { harness_error("could not generate " + cid); mcenv::cur = nullptr; continue; }
+				cur_cid = cid;
+				R->ok(true);
+				R->counters["canonretry_groups"]++;
+				std::stringstream pub;
+				v->PublishGroup(pub);
+				bool c1 = v->CheckGroup();
+				BarnettSmartVTMF_dlog *w = new BarnettSmartVTMF_dlog(pub, F, G, true, true);
+				bool c2 = w->CheckGroup();
+				if (!c1 || !c2)
+					R->viol("group/generated-set-refused/vtmf_dlog_canonical", "CheckGroup() = " + str(c1) + " on the generating object, " + str(c2) + " on an object built from the published group, for the library-generated group p=" +
+						Z(v->p).str() + " q=" + Z(v->q).str() + " g=" + Z(v->g).str() + " (canonical generator)", cid);
+				printf("{\"t\":\"ref\",\"kind\":\"c06.ggen\",\"a\":[\"%s\",\"%s\",\"%s\"],\"got\":\"%s\",\"case\":\"%s\"}\n",
+					Z(v->p).str().c_str(), Z(v->q).str().c_str(), Z(v->k).str().c_str(), Z(v->g).str().c_str(), jesc(cid).c_str());
+				if (set == 0) R->sample(cid, "p=" + Z(v->p).str() + " q=" + Z(v->q).str() + " g=" + Z(v->g).str());
+				delete w;
+				delete v;
+				mcenv::cur = nullptr;
+			}
+	}
 done:
 	mcenv::cur = nullptr;
 	rep.finish();
